@@ -305,6 +305,9 @@ def cli_routes(ctx, work, sets):
                  {"structure_style": "single-package", "compound_fields.enabled": True}),
                 (["--structure-style", "clusters", "--docstring-style", "Google"], {"structure": "clusters", "docstring": "Google"},
                  {"structure_style": "clusters", "docstring_style": "Google"}),
+                # another conflicting pair: generic collections need frozen=False
+                (["--structure-style", "single-package", "--generic-collections", "--frozen"], {"structure": "single-package", "format": {"frozen": "true"}, "output": {"genericCollections": "true"}},
+                 {"structure_style": "single-package", "generic_collections": True, "format.frozen": True}),
                 # a pair of options that CONFLICT (order needs eq): every route has to resolve the conflict the same way
                 (["--structure-style", "single-package", "--order", "--no-eq"], {"structure": "single-package", "format": {"order": "true", "eq": "false"}},
                  {"structure_style": "single-package", "format.order": True, "format.eq": False})):
@@ -335,6 +338,8 @@ def cli_routes(ctx, work, sets):
                         txt = re.sub(r"<CompoundFields([^>]*)>false</CompoundFields>", r"<CompoundFields\1>true</CompoundFields>", txt)
                     for attr, val in (cfg_edit.get("format") or {}).items():
                         txt = re.sub(r'(<Format\b[^>]*\b%s=")[^"]*(")' % attr, r"\g<1>%s\g<2>" % val, txt)
+                    for attr, val in (cfg_edit.get("output") or {}).items():
+                        txt = re.sub(r'(<Output\b[^>]*\b%s=")[^"]*(")' % attr, r"\g<1>%s\g<2>" % val, txt)
                     if "docstring" in cfg_edit:
                         txt = re.sub(r"<DocstringStyle>[^<]*</DocstringStyle>", f"<DocstringStyle>{cfg_edit['docstring']}</DocstringStyle>", txt)
                     # the file written by init-config also carries DEFAULT substitutions (e.g. class names ending in
@@ -361,7 +366,40 @@ def cli_routes(ctx, work, sets):
                 continue
             if a != b:
                 ctx.violation(f"{sname}: CLI flags {flags} and the equivalent config file generate different files: {_diff(a, b)}", {"set": sname, "flags": flags})
-    ctx.extra["cli_routes"] = f"covered: {covered} flag/config pairs"
+    # a project file in the DOCUMENTED layout (a committed copy of what `xsdata init-config` of the pinned release
+    # writes, every option set to a non-default value) against the same options passed through the API
+    fixture = Path(__file__).resolve().parent.parent / "fixtures" / "config_all_options.xml"
+    api_all = {"max_line_length": 100, "generic_collections": True, "format.repr": False, "format.order": True, "format.frozen": True, "format.slots": True,
+               "structure_style": "clusters", "docstring_style": "Google", "relative_imports": True, "compound_fields.enabled": True,
+               "compound_fields.default_name": "pick", "compound_fields.force_default_name": True, "compound_fields.max_name_parts": 2,
+               "wrapper_fields": True, "unnest_classes": True, "ignore_patterns": True}
+    # two variants: as committed (generic collections AND frozen: a conflict every route has to resolve alike - F53) and
+    # without the conflict (frozen off: generic collections stay on)
+    variants = [(fixture.read_text(), api_all), (fixture.read_text().replace('frozen="true"', 'frozen="false"'), {**api_all, "format.frozen": False})]
+    for sname, files, main in [x for x in sets if x[0] in ("compound", "wildcard-lists", "primer")]:
+      for cfg_text, api_opts in variants:
+          spath = os.path.join(work, "apispec.json")
+          json.dump({"files": files, "main": main, "options": api_opts, "repeat": 1, "pkg": "clipkg"}, open(spath, "w"))
+          api = worker(["gen", spath], 0)["runs"][0]
+          d = tempfile.mkdtemp(prefix="xv-c12cfg-", dir=work)
+          os.mkdir(os.path.join(d, "src"))
+          for name, src in files.items():
+              Path(d, "src", name).write_bytes(open(src, "rb").read() if src.startswith("/") else src.encode())
+          Path(d, "cfg.xml").write_text(cfg_text)
+          p = subprocess.run([sys.executable, "-m", "xsdata", "generate", "--config", "cfg.xml", "src/" + main[0] if len(main) == 1 else "src"],
+                             cwd=d, env=env, capture_output=True, text=True, timeout=600)
+          ctx.case(("config-fixture", sname, api_opts["format.frozen"]))
+          if p.returncode != 0:
+              if "error" not in api:
+                  ctx.violation(f"{sname}: the documented project file is refused although the same options work through the API: {p.stderr[-300:]}", {"set": sname})
+              continue
+          got = _hash_tree(d)
+          got.pop("cfg.xml", None)
+          if "error" in api:
+              ctx.violation(f"{sname}: the API refuses options the project file route accepts: {api['error']}", {"set": sname})
+          elif got != api:
+              ctx.violation(f"{sname}: a project file in the documented layout and the same options through the API generate different files: {_diff(api, got)}", {"set": sname})
+    ctx.extra["cli_routes"] = f"covered: {covered} flag/config pairs + the documented project file"
 
 
 def replay(ctx, doc):
